@@ -3,11 +3,18 @@
 import json, os, subprocess, sys
 os.chdir("/verif")
 rows = []
+only = None
+for i, a in enumerate(sys.argv):
+    if a == "--only":           # re-run these ids only and merge into the existing RESULTS.json
+        only = set(sys.argv[i + 1].split(","))
+        rows = [r for r in json.load(open("seeded/RESULTS.json")) if r["id"] not in only]
 for d in sorted(os.listdir("seeded")):
+    if only is not None and d not in only:
+        continue
     if not os.path.isdir(os.path.join("seeded", d)) or not os.path.exists(os.path.join("seeded", d, "meta.json")):
         continue
     meta = json.load(open(os.path.join("seeded", d, "meta.json")))
-    p = subprocess.run(["tools/try_seed.py", os.path.join("seeded", d)], capture_output=True, text=True)
+    p = subprocess.run(["tools/try_seed.py", os.path.join("seeded", d), "--worktree"], capture_output=True, text=True)
     line = [l for l in p.stdout.split("\n") if l.startswith(meta["property"] + " ")]
     verdict = line[0].split()[1] if line else "?"
     how = "failing input" if ("VIOLATION" in (line[0] if line else "") and "no-failing-input-found" not in line[0].split("||")[0]) else \
@@ -15,6 +22,7 @@ for d in sorted(os.listdir("seeded")):
     rows.append({"id": d, "property": meta["property"], "summary": meta.get("summary", ""), "needs": meta.get("needs", ""),
                  "files": meta.get("files", []), "verdict": verdict, "how": how})
     print(d, verdict, how, flush=True)
+rows.sort(key=lambda r: r["id"])
 json.dump(rows, open("seeded/RESULTS.json", "w"), indent=1)
 with open("seeded/README.md", "w") as f:
     f.write("# Seeded changes (each breaks one property, compiles, passes the existing suite; confirmed in a scratch worktree)\n\n")
